@@ -417,8 +417,13 @@ class BaseFeatureWriter:
             x_value = VariableScalar()
             y_value = VariableScalar()
             found = False
+            # prefer the pre-processed glyph sets (e.g. anchors moved or added by
+            # filters), like the static branch below does
+            glyphSets = getattr(self.context.compiler, "glyphSets", None) or {}
             for source in designspace.sources:
-                if source.layerName is None:
+                if source.name in glyphSets:
+                    layer = glyphSets[source.name]
+                elif source.layerName is None:
                     layer = source.font
                 else:
                     layer = source.font.layers[source.layerName]
